@@ -29,6 +29,7 @@ import (
 	"errors"
 	"fmt"
 	"os"
+	"slices"
 	"sort"
 	"strings"
 	"sync/atomic"
@@ -81,6 +82,37 @@ func c18CompileThree(src string, O, base optSet) *c18Three {
 		}
 	}
 	return t
+}
+
+// c18MaskForm compiles src with the regex options of o OR-ed into one RegexOptions value (other compile options
+// stay separate arguments, in both argument orders) and compares the program with the one compiled from
+// separate arguments.
+func c18MaskForm(src string, o optSet, sep *regexp2.Regexp) string {
+	var mask regexp2.RegexOptions
+	var others []regexp2.CompileOption
+	n := 0
+	for _, co := range o.compileOptions() {
+		if ro, ok := co.(regexp2.RegexOptions); ok {
+			mask |= ro
+			n++
+		} else {
+			others = append(others, co)
+		}
+	}
+	if n < 2 {
+		return ""
+	}
+	for _, args := range [][]regexp2.CompileOption{append([]regexp2.CompileOption{mask}, others...), append(append([]regexp2.CompileOption{}, others...), mask)} {
+		re, err := regexp2.Compile(src, args...)
+		if err != nil {
+			return fmt.Sprintf("Compile with the options OR-ed into one bitmask (%d) is rejected: %v; with separate arguments it compiles", int(mask), err)
+		}
+		a, b := re.VerifCode(), sep.VerifCode()
+		if !slices.Equal(a.Codes, b.Codes) || fmt.Sprint(a.Strings) != fmt.Sprint(b.Strings) || len(a.Sets) != len(b.Sets) || fmt.Sprint(re.GetGroupNames(), re.GetGroupNumbers()) != fmt.Sprint(sep.GetGroupNames(), sep.GetGroupNumbers()) || re.RightToLeft() != sep.RightToLeft() {
+			return fmt.Sprintf("Compile with the options OR-ed into one bitmask (%d) gives a different program / group map than the same options as separate arguments", int(mask))
+		}
+	}
+	return ""
 }
 
 func c18ErrCode(err error) string {
@@ -254,6 +286,13 @@ func c18Spellings(c *Ctx, fam string, plain, spaced string, wellFormed bool, bas
 			continue
 		}
 		atomic.AddInt64(&st.compiled, 1)
+		// the compile-time spelling has two forms of its own: the option constants as separate arguments (what
+		// compileWith passes) and one OR-ed bitmask (README: "individually or as a bitmask"); same program wanted
+		if len(base+O) >= 2 {
+			if msg := c18MaskForm(src, base+O, res[0]); msg != "" {
+				report("bitmask", nil, 0, msg)
+			}
+		}
 		var bl []mres
 		if O != "" {
 			bl = baseline
